@@ -462,8 +462,11 @@ def gen_fea(rng, facts, want=None, collide=None, ext_split=False, mfs=False):
                                                                " ".join(sorted(ligs)),
                                                                " ".join(sorted(marks))))
         if r > 0.4:
-            lines.append("LigatureCaretByPos f_i %d;" % rng.choice([280, 300]))
-            if rng.random() < 0.3:
+            how = rng.choice(["pos", "pos", "index", "both"])
+            if how in ("pos", "both"):
+                lines.append("LigatureCaretByPos f_i %d;" % rng.choice([280, 300]))
+            if how in ("index", "both"):
+                # carets given as contour point indices only: still the user's carets
                 lines.append("LigatureCaretByIndex f_f 1;")
         gdef = _block("table", "GDEF", lines)
         final.insert(rng.randint(0, len(final)), gdef)
